@@ -439,7 +439,8 @@ def gen_decl(rng, kind=None):
         default, fixed = "dv", "fv"  # not a valid declaration; the mapper does not care
     tp = rng.choice(["string", "string", None])
     if kind == "attribute":
-        return {"kind": kind, "use": rng.choice([None, "optional", "required", "required", "prohibited"]), "default": default, "fixed": fixed, "type": tp}
+        return {"kind": kind, "use": rng.choice([None, "optional", "required", "required", "prohibited"]), "default": default, "fixed": fixed, "type": tp,
+                "group": rng.random() < 0.3}
     mn, mx = rng.choice([(1, 1), (0, 1), (0, MAXSIZE), (1, MAXSIZE), (2, 2), (0, 0), (1, 1), (0, 1)])
     return {"kind": kind, "min": mn, "max": mx, "default": default, "fixed": fixed, "type": tp}
 
@@ -459,18 +460,25 @@ def decl_valid(d):
 
 
 def decls_xsd(decls, ns="urn:t"):
-    els, ats = [], []
+    els, ats, grouped = [], [], []
     for i, d in enumerate(decls):
         extra = "".join(f' {k}="{_xml_attr(d[k])}"' for k in ("default", "fixed") if d[k] is not None)
         tp = ' type="xs:string"' if d["type"] == "string" else ""
         if d["kind"] == "attribute":
             use = f' use="{d["use"]}"' if d["use"] else ""
-            ats.append(f'   <xs:attribute name="d{i}"{tp}{use}{extra}/>\n')
+            (grouped if d.get("group") else ats).append(f'   <xs:attribute name="d{i}"{tp}{use}{extra}/>\n')
         else:
-            els.append(f'    <xs:element name="d{i}"{tp}{occ_attrs(d["min"], d["max"])}{extra}/>\n')
+            nil = ' nillable="true"' if d.get("nillable") else ""
+            els.append(f'    <xs:element name="d{i}"{tp}{occ_attrs(d["min"], d["max"])}{extra}{nil}/>\n')
     tns = f' targetNamespace="{ns}" xmlns="{ns}" elementFormDefault="qualified"' if ns else ""
+    groups = ""
+    if grouped:
+        # the declarations marked "group" sit in an attribute group (nested once) that the type refers to
+        groups = (f' <xs:attributeGroup name="ag1">\n{"".join(grouped[1:])} </xs:attributeGroup>\n'
+                  f' <xs:attributeGroup name="ag0">\n{grouped[0]}   <xs:attributeGroup ref="ag1"/>\n </xs:attributeGroup>\n')
+        ats.append('   <xs:attributeGroup ref="ag0"/>\n')
     return (
-        f'<?xml version="1.0"?>\n<xs:schema xmlns:xs="http://www.w3.org/2001/XMLSchema"{tns}>\n'
+        f'<?xml version="1.0"?>\n<xs:schema xmlns:xs="http://www.w3.org/2001/XMLSchema"{tns}>\n{groups}'
         f' <xs:element name="r">\n  <xs:complexType>\n   <xs:sequence>\n{"".join(els)}   </xs:sequence>\n{"".join(ats)}  </xs:complexType>\n </xs:element>\n</xs:schema>\n'
     )
 
@@ -492,14 +500,21 @@ def export_gattr(attr):
 
 
 def real_attr_map(decls):
-    """SchemaParser + SchemaMapper + CalculateAttributePaths: the Attr of every declaration"""
+    """SchemaParser + SchemaMapper + the UNGROUP step of the real container (attribute groups) +
+    CalculateAttributePaths: the Attr of every declaration"""
+    from xsdata.codegen.container import ClassContainer, Steps
     from xsdata.codegen.handlers.calculate_attribute_paths import CalculateAttributePaths
     from xsdata.codegen.mappers.schema import SchemaMapper
     from xsdata.codegen.parsers.schema import SchemaParser
+    from xsdata.models.config import GeneratorConfig
     from xsdata.models.xsd import Schema
 
     schema = SchemaParser(location="mem.xsd").from_bytes(decls_xsd(decls).encode(), Schema)
-    root = next(c for c in SchemaMapper.map(schema) if c.name == "r")
+    container = ClassContainer(GeneratorConfig())
+    container.extend(SchemaMapper.map(schema))
+    container.validate_classes()
+    container.process_classes(Steps.UNGROUP)
+    root = next(c for c in container if c.name == "r")
     CalculateAttributePaths().process(root)
     by_name = {a.name: a for a in root.attrs}
     return [export_gattr(by_name[f"d{i}"]) for i in range(len(decls))]
